@@ -241,7 +241,7 @@ unsafe fn drop_cycle<T>(cycle: HashMap<Link<T>, usize>) {
         // deallocate. This allows us to bust the cycle detection by clearing
         // all links.
         let rcbox = ptr.as_ptr();
-        let cycle_strong_refs = {
+        let _extracted_forward_refs = {
             let mut links = (*rcbox).links().borrow_mut();
             links
                 .extract_if(|link, _| {
@@ -265,7 +265,12 @@ unsafe fn drop_cycle<T>(cycle: HashMap<Link<T>, usize>) {
         // cycle holds a strong reference to `this`. Mark all nodes in the cycle
         // as dead so when we deallocate them via the `value` pointer we don't
         // get a double-free.
-        for _ in 0..cycle_strong_refs.min((*rcbox).strong()) {
+        //
+        // `refcount` is the number of strong references to this node that are
+        // owned by the cycle, which is what the orphan check compared against;
+        // the forward links extracted above count the references this node
+        // *holds*, which differs for any node whose in- and out-degree differ.
+        for _ in 0..refcount.min((*rcbox).strong()) {
             (*rcbox).dec_strong();
         }
     }
